@@ -123,9 +123,18 @@ pub fn solve_real_lp_problem_micro_lp(lp: &LinearModel) -> Result<LpSolution<f64
                 name
             )));
         };
+        // A variable without any finite bound is handed to MicroLP as the difference of
+        // two non-negative columns: MicroLP cycles or reports wrong verdicts on free columns.
         let var = match domain.get_type() {
-            VariableType::NonNegativeReal(min, max) => problem.add_var(obj[i], (*min, *max)),
-            VariableType::Real(min, max) => problem.add_var(obj[i], (*min, *max)),
+            VariableType::NonNegativeReal(min, max) => {
+                (problem.add_var(obj[i], (*min, *max)), None)
+            }
+            VariableType::Real(min, max) if *min == f64::NEG_INFINITY && *max == f64::INFINITY => {
+                let positive = problem.add_var(obj[i], (0.0, f64::INFINITY));
+                let negative = problem.add_var(-obj[i], (0.0, f64::INFINITY));
+                (positive, Some(negative))
+            }
+            VariableType::Real(min, max) => (problem.add_var(obj[i], (*min, *max)), None),
             _ => {
                 return Err(SolverError::InvalidDomain {
                     expected: vec![
@@ -144,7 +153,9 @@ pub fn solve_real_lp_problem_micro_lp(lp: &LinearModel) -> Result<LpSolution<f64
             .coefficients()
             .iter()
             .zip(vars_microlp.iter())
-            .map(|(c, v)| (*v, *c))
+            .flat_map(|(c, (positive, negative))| {
+                std::iter::once((*positive, *c)).chain(negative.map(|negative| (negative, -*c)))
+            })
             .collect::<Vec<_>>();
         let rhs = cons.rhs();
         let comparison = match cons.constraint_type() {
@@ -176,9 +187,10 @@ pub fn solve_real_lp_problem_micro_lp(lp: &LinearModel) -> Result<LpSolution<f64
             let assignment = variables
                 .iter()
                 .zip(vars_microlp.iter())
-                .map(|(name, c)| Assignment {
+                .map(|(name, (positive, negative))| Assignment {
                     name: name.clone(),
-                    value: optimal_solution[*c],
+                    value: optimal_solution[*positive]
+                        - negative.map_or(0.0, |negative| optimal_solution[negative]),
                 })
                 .collect::<Vec<_>>();
             let coeffs = assignment.iter().map(|v| v.value).collect();
